@@ -185,9 +185,13 @@ def check_case(case, ctx):
     if method == "room_linear":
         ex = oracles.room_linear(spec_ko, reference, 0, 0)
         exact_val = None if ex.status != "optimal" else float(ex.value)
+        exact_hi = exact_val
     else:
-        st_, k = oracles.room_binary(spec_ko, reference, delta, eps)
+        scale = max([1.0] + [abs(v) for v in reference.values()])
+        st_, k = oracles.room_binary(spec_ko, reference, delta, eps, slack=1e-7 * scale)  # bands a hair wider: lower bound
+        st2, k2 = oracles.room_binary(spec_ko, reference, delta, eps, slack=-1e-7 * scale)  # a hair narrower: upper bound
         exact_val = None if st_ != "optimal" else float(k)
+        exact_hi = exact_val if st2 != "optimal" else float(k2)
     if exact_val is None:
         if raised is None and sol.status == "optimal":
             _v("room:status", "the ROOM problem is infeasible but status is optimal")
@@ -196,6 +200,12 @@ def check_case(case, ctx):
         _v("room:status", f"the ROOM problem has optimum {exact_val} but ROOM {'raised ' + repr(raised) if raised else 'status ' + sol.status}")
     flux = {rid: float(sol.fluxes[rid]) for rid in rids}
     check_feasible_vector(spec_ko, flux, "room", tol=1e-5)
+    undetermined = 0
+    if method == "room" and exact_hi is not None and exact_hi != exact_val:
+        # a flux sits on a band edge within round-off: any count between the two bounds is a correct answer
+        undetermined = 1
+        if exact_val - 1e-4 <= sol.objective_value <= exact_hi + 1e-4:
+            return {"nontrivial": False, "classes": classes + ["room-band-edge"], "undetermined": 1}
     if abs(sol.objective_value - exact_val) > 1e-4 * max(1.0, exact_val):
         _v("room:not-minimal", f"{method}: reported objective {sol.objective_value!r}, exact minimum of the documented formulation {exact_val} "
                                f"(delta={delta}, epsilon={eps}, knocked {knocked})")
